@@ -331,6 +331,7 @@ class SArr(_nd):
     def dot(self, o): return self._red('dot', o)
     def nonzero(self): return self._red('nonzero')
     def argsort(self, *a, **k): return self._red('argsort', *a, **k)
+    def searchsorted(self, *a, **k): return self._red('searchsorted', *a, **k)
     def round(self, *a, **k): return self._red('round', *a, **k)
     def clip(self, *a, **k): return self._red('clip', *a, **k)
     def trace(self, *a, **k): return self._red('trace', *a, **k)
